@@ -36,7 +36,8 @@ SettingLists == {<< >>} \cup {<<a>> : a \in Palette} \cup {<<a, b>> : a \in Pale
 Fresh(S, base) == [i \in DOMAIN S |-> <<base + i, S[i]>>]
 OptBounds(n) == {<< >>} \cup {<<x>> : x \in (-(n + 1))..(n + 1)}
 
-SetToSeq(S) == CHOOSE f \in [1..Cardinality(S) -> S] : Range(f) = S
+RECURSIVE SetToSeq(_)
+SetToSeq(S) == IF S = {} THEN << >> ELSE LET m == CHOOSE x \in S : TRUE IN <<m>> \o SetToSeq(S \ {m})
 
 NoEvent == [op |-> "init", r |-> 0, a |-> [inplace |-> 0], out |-> "ok", res |-> << >>, same |-> 0,
             upd |-> << >>, o |-> [pyout |-> "ok"], tag |-> ""]
